@@ -25,6 +25,11 @@ def main():
                     if o['op'] == 'load':
                         libs[o['obj']] = GroupLibrary.Load(o['lib'])
                         r['fp'] = fingerprint(libs[o['obj']])[0]
+                    elif o['op'] == 'new':
+                        # a library put together by hand: an empty one carrying the scheme of a shipped library
+                        from pgradd.GroupAdd.Scheme import GroupAdditivityScheme
+                        libs[o['obj']] = GroupLibrary(GroupAdditivityScheme.Load(o['lib']))
+                        r['fp'] = fingerprint(libs[o['obj']])[0]
                     elif o['op'] == 'decompose':
                         d = libs[o['obj']].GetDescriptors(o['smiles'])
                         dec[(o['obj'], o['smiles'])] = d
